@@ -36,6 +36,8 @@ class save_visitor {
     }
 
     std::uint64_t bytes() {
+        m_ofs.flush();
+        XCDAT_THROW_IF(m_ofs.fail(), "Failed to write the output file");
         return m_ofs.tellp();
     }
 };
